@@ -21,9 +21,9 @@ DESIGN_REF = "DESIGN.md §3 C17"
 RULE = (
     "Histories of construct / add_mapping / drop_semi_singleton_mapping / check_semi_singleton_entry_exists / "
     "get_all_semi_singleton_instances / clear_semi_singleton over a fresh class family per case: A and B sharing "
-    "one metaclass object, C(A) a subclass, D with its own default metaclass, E with a custom hashfunc, F whose instances are falsy, G whose __init__ refuses some arguments (a failed construction must register nothing), H with a custom hashfunc for which keyword ORDER matters; __init__ "
+    "one metaclass object, C(A) a subclass, D with its own default metaclass, E with a custom hashfunc, F whose instances are falsy, G whose __init__ refuses some arguments (a failed construction must register nothing), H with a custom hashfunc for which keyword ORDER matters, V a semi-singleton Vertex subclass whose instances all carry one explicit uid and join one universe; __init__ "
     "counts its runs and stamps a serial number (the harness keeps no reference to instances between calls).  Argument values from a domain where key equality is unambiguous (ints incl. the "
-    "hash-colliding -1/-2, strs, tuples; never mixing 1/1.0/True), keyword-order permutations incl. equal nested dict values built in different insertion orders.  Bounded-exhaustive "
+    "hash-colliding -1/-2, strs, tuples, two UniverseLaws objects made alike - the model identifies library objects up to the library's own ==; never mixing 1/1.0/True), keyword-order permutations incl. equal nested dict values built in different insertion orders.  Bounded-exhaustive "
     "for all histories up to the stated length over {A,B,C} x 3 argument values, Hypothesis beyond.  Oracle = a dict "
     "model per class: live key => that instance and __init__ not re-run; new key => new object, type(obj) is the "
     "class called, distinct from every live instance, __init__ ran once; check => the model's instance or None, "
@@ -42,7 +42,7 @@ LEVEL_TEXT = "Model-based exploration with a bounded-exhaustive core (every hist
 LEVEL_NOTE = "Trusts the per-class dict model. Search, not proof."
 TECHNIQUE = "model-based stateful PBT (exhaustive small-scope + Hypothesis op-lists) against a per-class dict model"
 
-ARGS = [-1, -2, 0, 1, 2, "a", "b", [1, 2], [2, 1]]
+ARGS = [-1, -2, 0, 1, 2, "a", "b", [1, 2], [2, 1], "<L1>", "<L2>"]   # <L1>/<L2>: two UniverseLaws objects made per case
 OPS = ["new", "new", "new", "add", "drop", "check", "clear"]
 
 
@@ -53,7 +53,7 @@ def budget(tier):
 
 
 def strategy(tier):
-    op = st.tuples(st.sampled_from(OPS), st.integers(0, 7), st.integers(0, len(ARGS) - 1), st.integers(0, 5))
+    op = st.tuples(st.sampled_from(OPS), st.integers(0, 8), st.integers(0, len(ARGS) - 1), st.integers(0, 5))
     return st.builds(lambda ops: {"ops": [list(o) for o in ops]}, st.lists(op, max_size=40))
 
 
@@ -133,15 +133,40 @@ def family():
 
         __init__ = init
 
-    return [A, B, C, D, E, F, G, H], ninit, hf
+    from edgegraph.structure import Universe, Vertex
+    from edgegraph.structure.universe import UniverseLaws
+
+    home = Universe()
+
+    import json
+
+    def vhf(args, kwargs):
+        return (args, json.dumps({x: v for x, v in kwargs.items() if x not in ("uid", "universes")}, sort_keys=True))
+
+    class V(Vertex, metaclass=S.semi_singleton_metaclass(hashfunc=vhf)):
+        """A semi-singleton VERTEX class (named stations, keyed on everything but uid/universes): the harness gives
+        every instance the same explicit uid and the same home universe (V.EXTRA)."""
+
+        EXTRA = {"uid": 77, "universes": [home]}
+
+        def __init__(self, name, *, uid=None, universes=None, **k):
+            Vertex.__init__(self, uid=uid, universes=universes, attributes={"name": repr(name)})
+            init(self, name, **k)
+
+    # library objects as argument values: two law sets made alike (whether they are EQUAL is the library's call;
+    # the model follows whatever == says)
+    libobjs = {"<L1>": UniverseLaws(), "<L2>": UniverseLaws()}
+    return [A, B, C, D, E, F, G, H, V], ninit, hf, libobjs
 
 
 KWARGS = [{}, {"x": 1, "y": 2}, {"y": 2, "x": 1}, {"x": 2}, {"attrs": {"a": 1, "b": 2}}, {"attrs": {"b": 2, "a": 1}}]
 
 
-def mkargs(ai, kw):
+def mkargs(ai, kw, libobjs=None):
     a = ARGS[ai]
     a = tuple(a) if isinstance(a, list) else a
+    if libobjs and isinstance(a, str) and a in libobjs:
+        a = libobjs[a]
     return a, {k: (dict(v) if isinstance(v, dict) else v) for k, v in KWARGS[kw % len(KWARGS)].items()}
 
 
@@ -158,9 +183,18 @@ def check_case(case):
     """
     from edgegraph.structure import singleton as S
 
-    CL, ninit, hf = family()
+    CL, ninit, hf, libobjs = family()
     NC = len(CL)
-    names = ["A", "B", "C", "D", "E", "F", "G", "H"]
+    names = ["A", "B", "C", "D", "E", "F", "G", "H", "V"]
+    lib = list(libobjs.values())
+
+    def tok(a):
+        """Model-side stand-in for an argument value: library objects are identified up to the library's own ==."""
+        for j, o in enumerate(lib):
+            if o is a or (type(o) is type(a) and o == a):
+                return ("libobj", j)
+        return a
+
     model = {c: {} for c in CL}   # key -> (serial, constructor args that reach it)
     classes = set()
     touched = set()
@@ -174,12 +208,16 @@ def check_case(case):
     probe_args = sorted({o[2] for o in case["ops"]} | {0, 1})
     probe_kws = sorted({o[3] % len(KWARGS) for o in case["ops"]} | {0})
 
+    def kx(c, kwargs):
+        """keyword arguments as passed to the library: V additionally gets its fixed uid / universes"""
+        return dict(kwargs, **c.EXTRA) if hasattr(c, "EXTRA") else kwargs
+
     def key(c, a, kwargs):
         if c is CL[4]:
             return hf((a,), kwargs)
         if c is CL[7]:
-            return ((a,), tuple(kwargs))     # H keys on the positional args and the keyword NAMES in call order
-        return (a, _canon(kwargs))
+            return ((tok(a),), tuple(kwargs))     # H keys on the positional args and the keyword NAMES in call order
+        return (tok(a), _canon(kwargs))
 
     def verify_all(where):
         for ci, c in enumerate(CL):
@@ -202,10 +240,10 @@ def check_case(case):
         for ci, c in enumerate(CL):
             for ai in probe_args:
                 for kw in probe_kws:
-                    a, kwargs = mkargs(ai, kw)
+                    a, kwargs = mkargs(ai, kw, libobjs)
                     k = key(c, a, kwargs)
                     try:
-                        r = S.check_semi_singleton_entry_exists(c, a, **kwargs)
+                        r = S.check_semi_singleton_entry_exists(c, a, **kx(c, kwargs))
                     except Exception as e:  # noqa
                         raise Violation("check-raised", f"{where}: {e!r}")
                     exp = model[c].get(k)
@@ -220,7 +258,7 @@ def check_case(case):
         require(ninit[0] == n0, "check-created-instance", where)
 
     for step, (op, ci, ai, kw) in enumerate(case["ops"]):
-        a, kwargs = mkargs(ai, kw)
+        a, kwargs = mkargs(ai, kw, libobjs)
         where = f"step {step} {op} {names[ci % NC]} {a!r} {kwargs}"
         if op == "new":
             c = CL[ci % NC]
@@ -229,7 +267,7 @@ def check_case(case):
             n0 = ninit[0]
             refused = c is CL[6] and a in ("b", 2, -2) and k not in model[c]
             try:
-                o = c(a, **kwargs)
+                o = c(a, **kx(c, kwargs))
             except (ValueError, _Abort) as e:
                 if refused:
                     # the class's own __init__ refused: nothing may have been registered (verify_all checks it)
@@ -256,6 +294,8 @@ def check_case(case):
                 between = True
             constructed = True
             mutated_since = False
+            if tok(a) != a:
+                classes.add("library-object-as-argument")
             sk = (c, repr(a), kw)
             if ((c, "-1", kw) in seen_keys and a == -2) or ((c, "-2", kw) in seen_keys and a == -1):
                 special = True
@@ -274,11 +314,11 @@ def check_case(case):
             c, k0 = entries[ci % len(entries)]
             touched.add(c)
             a0, kw0 = model[c][k0][1]
-            o = c(a0, **kw0)                      # the live instance for (c, k0)
+            o = c(a0, **kx(c, kw0))                      # the live instance for (c, k0)
             ser = getattr(o, "serial", None)
             require(ser == model[c][k0][0], "live-key-returned-other-instance", f"{where}: fetching the live instance for key {k0!r}")
             try:
-                S.add_mapping(o, a, **kwargs)
+                S.add_mapping(o, a, **kx(c, kwargs))
             except Exception as e:  # noqa
                 raise Violation("add_mapping-raised", f"{where}: {e!r}")
             del o
@@ -290,7 +330,7 @@ def check_case(case):
             k = key(c, a, kwargs)
             touched.add(c)
             try:
-                S.drop_semi_singleton_mapping(c, a, **kwargs)
+                S.drop_semi_singleton_mapping(c, a, **kx(c, kwargs))
             except KeyError:
                 require(k not in model[c], "drop-raised-for-live-key", where)
             except Exception as e:  # noqa
@@ -316,7 +356,7 @@ def check_case(case):
     for ci, c in enumerate(CL):
         for k, (serial, (a, kwargs)) in list(model[c].items()):
             n0 = ninit[0]
-            o = c(a, **kwargs)
+            o = c(a, **kx(c, kwargs))
             ok = getattr(o, "serial", None) == serial and ninit[0] == n0
             del o
             require(ok, "live-key-returned-other-instance", f"final: {names[ci]}({a!r}, {kwargs})")
